@@ -17,6 +17,8 @@ KIN = {
     "hist_q": dict(cat="Cat8", maxr=2, phases="Ph2", rek="ReK1", maxhist=2, pforms="PfMa"),
     "zero_q": dict(cat="Cat8", maxr=2, points="PtsZero", feeds="FdZero", kvals="KZ", pforms="PfAll"),
     "zero_t": dict(cat="Cat32", maxr=2, points="PtsZero", feeds="FdZero", kvals="KZ", pforms="PfAll", cont="CtAll"),
+    "half_q": dict(cat="CatHalf", maxr=2, points="PtsSq", feeds="Fd1", pforms="PfMa"),
+    "half_t": dict(cat="CatHalfW", maxr=2, points="PtsSq", feeds="Fd1", pforms="PfAll", cont="CtAll"),
     "sys3_t": dict(cat="Cat32", maxr=3),
     "sys2_t": dict(cat="Cat64", maxr=2, points="Pts2", pforms="PfAll"),
     "cstr_t": dict(cat="Cat32", maxr=2, points="Pts2", feeds="Fd2", cont="CtAll"),
@@ -33,6 +35,9 @@ ODE = {
     "full_q": dict(cat="Cat8", maxr=1, orders="OrdTwo", feeds="Fd1", configs="CfgFewBoth"),
     "zero_q": dict(cat="Cat2", maxr=2, full="FALSE", points="PtsZ1", feeds="FdZero2", kvals="KZ", configs="CfgZeroQ"),
     "zero_t": dict(cat="Cat3", maxr=2, full="FALSE", points="PtsZ1", feeds="FdZero", kvals="KZ", configs="CfgZero"),
+    "extra_t": dict(cat="Cat8", maxr=3, full="FALSE", feeds="Fd1", configs="CfgExtraT"),
+    "half_q": dict(cat="CatHalf", maxr=2, full="FALSE", points="PtsSq", feeds="Fd1", configs="CfgThree"),
+    "half_t": dict(cat="CatHalfW", maxr=2, full="FALSE", points="PtsSq", feeds="Fd1", configs="CfgFewBoth"),
     "cfg_t": dict(cat="Cat8", maxr=2, full="FALSE", feeds="Fd1", configs="CfgAll"),
     "comp_t": dict(cat="Cat4", maxr=2, orders="OrdTwo", full="FALSE", feeds="Fd1", configs="CfgAllComp"),
     "sys_t": dict(cat="Cat32", maxr=2, full="FALSE", configs="CfgFew", names="NmIon"),
